@@ -16,16 +16,16 @@ for c in sorted(os.listdir(src)):
             print("skip (not confirmed)", d); continue
         meta = json.load(open(os.path.join(d, "meta.json")))
         chk = json.load(open(os.path.join(d, "check_results.json"))) if os.path.exists(os.path.join(d, "check_results.json")) else {"results": {}}
-        sid = "%s%s" % (c, x if rnd == "1" else {"2": {"a": "c", "b": "d"}, "3": {"a": "e", "b": "f"}, "4": {"a": "g", "b": "h"}, "5": {"a": "a", "b": "b", "c": "c"}, "6": {"a": "a", "b": "b", "c": "c"}, "7": {"a": "a", "b": "b", "c": "c"}, "8": {"a": "a", "b": "b", "c": "c"}}[rnd][x])
+        sid = "%s%s" % (c, x if rnd == "1" else {"2": {"a": "c", "b": "d"}, "3": {"a": "e", "b": "f"}, "4": {"a": "g", "b": "h"}, "5": {"a": "a", "b": "b", "c": "c"}, "6": {"a": "a", "b": "b", "c": "c"}, "7": {"a": "a", "b": "b", "c": "c"}, "8": {"a": "a", "b": "b", "c": "c"}, "9": {"a": "c", "b": "d"}}[rnd][x])
         out = os.path.join(dst, sid)
         os.makedirs(out, exist_ok=True)
         shutil.copy(os.path.join(d, "patch.diff"), os.path.join(out, "patch.diff"))
         shutil.copy(os.path.join(d, "demo.rs"), os.path.join(out, "demo.rs"))
-        m = {"id": sid, "property": meta.get("property", c) if rnd in ("5", "6", "7", "8") else c, "also_breaks": meta.get("also_breaks"), "summary": meta.get("summary"), "needs": meta.get("needs"), "files": meta.get("files"),
+        m = {"id": sid, "property": meta.get("property", c) if rnd in ("5", "6", "7", "8", "9") else c, "also_breaks": meta.get("also_breaks"), "summary": meta.get("summary"), "needs": meta.get("needs"), "files": meta.get("files"),
              "origin": "written by an independent sub-agent given only the property text and a scratch worktree (round %s)" % rnd,
              "confirmed_in_scratch_worktree": {k: conf[k] for k in ("applies", "suite_passes_with", "demo_fails_with", "demo_passes_without")},
              "ran": ["selftest/confirm.py: git apply; cargo test --offline --test demo (fails); cargo test --workspace --offline (passes); revert; demo passes",
-                     "selftest/mutant.py: git -C /repo apply patch.diff; bin/check %s --tier quick; git -C /repo checkout -- ." % (meta.get("property", c) if rnd in ("5", "6", "7", "8") else c)],
+                     "selftest/mutant.py: git -C /repo apply patch.diff; bin/check %s --tier quick; git -C /repo checkout -- ." % (meta.get("property", c) if rnd in ("5", "6", "7", "8", "9") else c)],
              "checks": {p: {"exit": r["exit"], "first_lines": r["lines"][:2]} for p, r in chk["results"].items()}}
         if "demo_note" in meta:
             m["demo_note"] = meta["demo_note"]
